@@ -412,7 +412,7 @@ fn expand_tuple_assertion(value_expr: &TokenStream, pattern: &PatternTuple) -> T
     quote! {
         #[allow(unreachable_patterns)]
         match &(#value_expr) {
-            (#(#match_patterns),*) => {
+            (#(#match_patterns,)*) => {
                 #(#element_assertions)*
             },
             _ => unreachable!("Plain tuple match should always succeed"),
